@@ -257,6 +257,10 @@ class ProgramGen:
                     body.append(Item(kind="insn", mn=rng.choice(NO_OP), ops=[]))
             self.align_even()
             cnt = ("lit", rng.randrange(0, 5))
+            if self.f.get("forward_sizes") and self.planned_consts and rng.random() < 0.35:
+                # the number of passes is a constant defined somewhere else (maybe further down): the size of the block is
+                # known only then, while its body may refer to labels behind it
+                cnt = ("bin", "&", ("sym", rng.choice(self.planned_consts)), ("lit", 3))
             self.items.append(Item(kind="repeat", count=cnt, body=body))
             if odd_body:
                 self.parity = None
